@@ -58,6 +58,10 @@ pub fn trace_enable(on: bool) {
     TRACE_ON.store(on, Ordering::Relaxed);
 }
 
+pub fn trace_is_enabled() -> bool {
+    TRACE_ON.load(Ordering::Relaxed)
+}
+
 pub fn take_trace() -> Vec<TraceEv> {
     std::mem::take(&mut *TRACE.lock().unwrap_or_else(|e| e.into_inner()))
 }
